@@ -403,8 +403,15 @@ def sequence_case(n, d, chis, length, small=False, track=True):
                     c = 0
                 elif op == "scale":
                     s = env.cplx(f"s{step}")
+                    before = [f.clone() for f in a.factors]
                     a = s * a
                     dense = s * dense if track else None
+                    if c is not None:
+                        # canonical form survives scaling only if the scalar goes into the declared centre:
+                        # every other factor (the isometries) must come out unchanged
+                        for j_ in range(n):
+                            if j_ != c or env.mutant("scale_hits_centre_neighbour"):
+                                env.check_eq(a.factors[j_], before[j_], f"step {step}: scaling leaves the factor of site {j_} (not the declared centre {c}) unchanged")
                 elif op == "apply":
                     j = env.choice(f"site{step}", list(range(n)))
                     O = env.tensor_cplx(f"O{step}", (d, d))
@@ -632,7 +639,7 @@ def cases(tier):
                 "initial_centre": [None, n - 1] if small else [None, 0, n - 1],
                 "dense_state_tracked": n == 2,
             },
-            ["stale_centre", "one_more"],
+            ["stale_centre", "one_more", "scale_hits_centre_neighbour"],
             weight=100 * n * d * L,
             deadline_s=1200.0,
         )
